@@ -77,6 +77,21 @@ def parseEntries (ws : List String) : List (Bytes × Nat) :=
       | _ => none
     else none
 
+def showEnd : SEnd → String
+  | .closed => "closed" | .err => "err" | .fuel => "fuel"
+
+/-- what the packet decoder makes of one frame handed over by `GetNextMessage` -/
+def showFramePackets (m : Bytes) : String :=
+  match decodePackets m with
+  | .ok ps => String.join (ps.map fun p => s!" p={p.typ}:{hexOfBytes p.body}")
+  | .error _ => " bad"
+
+/-- `frag=<hex>,<hex>,...` (an empty item is an empty fragment) -/
+def parseFrags (ws : List String) : Option (List Bytes) :=
+  match kv ws "frag" with
+  | none => none
+  | some v => (v.splitOn ",").mapM bytesOfHex
+
 def parseMsgFields (ws : List String) : Option (Nat × Nat × Bytes × Bytes × Bool) := do
   let t ← kvNat ws "typ"
   let id ← kvNat ws "id"
@@ -133,6 +148,30 @@ def step (s : St) (line : String) : St × String :=
     match s.pend with
     | some (bs, infl) => ({ s with pend := none }, showSess (sessionData (mkEnv s false [] infl) bs))
     | none => (s, "none")
+  | some "srt" =>
+    -- packets framed by the encoder, the byte stream cut into fragments (`cut=`), read back through
+    -- GetNextMessage + packet decoder.  The cuts do not matter (`stream_fragmentation_independent`),
+    -- so the model reads the unfragmented stream.
+    let ps := parsePackets ws
+    let enc := ps.map frame
+    if enc.all (fun e => match e with | .ok _ => true | .error _ => false) then
+      let bs := enc.flatMap (fun e => match e with | .ok b => b | .error _ => [])
+      let r := readStream (bs.length + 1) bs
+      (s, "ok" ++ String.join (r.1.map showFramePackets) ++ " end=" ++ showEnd r.2)
+    else (s, "encerr")
+  | some "gnm" =>
+    -- raw fragments through GetNextMessage until it returns no message
+    match parseFrags ws with
+    | some fs =>
+      let r := readStreamF (fs.flatten.length + 1) fs
+      (s, "ok" ++ String.join (r.1.map fun m => " m=" ++ hexOfBytes m) ++ " end=" ++ showEnd r.2)
+    | none => (s, "bad-op")
+  | some "zrt" =>
+    -- DeflateData then InflateData (mode=raw) / Encode with compression then Decode (mode=msg) of an
+    -- n-byte payload: zlib is the abstract inverse pair of the model, for every size
+    match kvNat ws "n" with
+    | some n => (s, s!"ok out={n} eq=1")
+    | none => (s, "bad-op")
   | some "enc" | some "rt" =>
     match parseMsgFields ws, kvNat ws "comp", kvHex ws "defl" with
     | some (t, id, route, data, e), some comp, some defl =>
@@ -200,6 +239,8 @@ def specStep (st : SpecSt) (line : String) : SpecSt × String :=
         ({ st with pend := none }, "VIOLATION C06/server-crash " ++ (st.pend.getD op) ++ " got " ++ obs)
       | some "dec" | some "rt" => (st, "VIOLATION C06/message-decode-crash " ++ op)
       | some "pdec" | some "prt" | some "pdec2" | some "pdecs" | some "pchk" => (st, "VIOLATION C06/packet-decode-crash " ++ op)
+      | some "srt" | some "gnm" => (st, "VIOLATION C06/stream-read-crash " ++ op)
+      | some "zrt" => (st, "VIOLATION C06/zlib-crash " ++ op)
       | _ => (st, "VIOLATION C06/encode-crash " ++ op)
     else match ws.head? with
     | some "rt" =>
@@ -234,6 +275,24 @@ def specStep (st : SpecSt) (line : String) : SpecSt × String :=
         | some r => (st, if r == obs then "ok" else
             "VIOLATION C06/decode-result-aliased " ++ op ++ " returned earlier: " ++ r ++ " reads now: " ++ obs)
         | none => (st, "ok")
+      | none => (st, "bad-op")
+    | some "srt" =>
+      -- valid packets, any fragmentation: the same packets come back and the stream ends cleanly
+      let ps := parsePackets ws
+      if ps.all (fun p => 1 ≤ p.typ ∧ p.typ ≤ 5 ∧ p.body.length < 2 ^ 24) then
+        (st, if obs == showPackets ps ++ " end=closed" then "ok"
+             else "VIOLATION C06/stream-reassembly " ++ (op.take 300).toString ++ " got " ++ (obs.take 300).toString)
+      else (st, "ok")
+    | some "gnm" =>
+      -- whatever was handed over is, concatenated, a prefix of what was sent (all of it on a clean end)
+      let sent := String.join ((kv ws "frag").getD "" |>.splitOn ",")
+      let got := String.join ((words obs).filterMap fun w => if w.startsWith "m=" then some (w.drop 2).toString else none)
+      let clean := contains obs "end=closed"
+      (st, if (clean && got == sent) || (!clean && got.isPrefixOf sent) then "ok"
+           else "VIOLATION C06/stream-reassembly " ++ (op.take 300).toString ++ " got " ++ (obs.take 300).toString)
+    | some "zrt" =>
+      match kvNat ws "n" with
+      | some n => (st, if obs == s!"ok out={n} eq=1" then "ok" else "VIOLATION C06/zlib-roundtrip " ++ op ++ " got " ++ obs)
       | none => (st, "bad-op")
     | some "sess" => ({ st with pend := some op }, "ok")
     | some "sgo" => ({ st with pend := none }, "ok")
